@@ -22,6 +22,14 @@ CONFIGS = {
     "p255-extnd-san": {"cmake": ["-DFP_PRIME=255", "-DED_METHD=EXTND;BASIC;BASIC;TRICK"], "cflags": SAN},
     "p381": {"cmake": ["-DFP_PRIME=381", "-DFP_QNRES=on", "-DFPX_METHD=INTEG;INTEG;LAZYR",
                        "-DPP_METHD=LAZYR;OATEP"], "cflags": "-O2"},
+    # the other pairing field sizes (C10 thorough: towers above degree 12 with the curve families they belong to)
+    "p330": {"cmake": ["-DFP_PRIME=330", "-DFPX_METHD=INTEG;INTEG;LAZYR", "-DPP_METHD=LAZYR;OATEP"], "cflags": "-O2"},    # KSS16: fp16
+    "p354": {"cmake": ["-DFP_PRIME=354", "-DFPX_METHD=INTEG;INTEG;LAZYR", "-DPP_METHD=LAZYR;OATEP"], "cflags": "-O2"},    # KSS18: fp18
+    "p315": {"cmake": ["-DFP_PRIME=315", "-DFPX_METHD=INTEG;INTEG;LAZYR", "-DPP_METHD=LAZYR;OATEP"], "cflags": "-O2"},    # BLS24: fp24
+    "p575": {"cmake": ["-DFP_PRIME=575", "-DBN_PRECI=3072", "-DFP_QNRES=on", "-DFPX_METHD=INTEG;INTEG;LAZYR",
+                       "-DPP_METHD=LAZYR;OATEP"], "cflags": "-O2"},                                                            # BLS48: fp48
+    "p569": {"cmake": ["-DFP_PRIME=569", "-DBN_PRECI=3072", "-DFPX_METHD=INTEG;INTEG;LAZYR", "-DPP_METHD=LAZYR;OATEP"],
+             "cflags": "-O2"},                                                                                                  # SG54: fp54
     "cov": {"cmake": [], "cflags": "-O1 -g -finstrument-functions"},
     "mt": {"cmake": ["-DMULTI=PTHREAD"], "cflags": "-O2"},
     # C06: the RSA padding is a compile-time choice (base = PKCS2/OAEP with CRT); the plain (non-CRT) private-key paths
